@@ -67,39 +67,63 @@ func c39DerivedLen(cluster *kafscalev1alpha1.KafscaleCluster) int {
 
 // c39PodAddrs renders the broker StatefulSet and headless Service with the reconciler's own
 // code into a fake API server and derives the stable pod addresses from those objects.
-func c39PodAddrs(ctx context.Context, cluster *kafscalev1alpha1.KafscaleCluster) (podAddr func(int32) string, stsReplicas *int32, problem string) {
+// c39Pods is where the deployed broker pods can be reached, derived from the rendered objects.
+type c39Pods struct {
+	addr func(int32) string // stable DNS name of pod i
+	port int32              // the port the pods listen on for Kafka clients (container port "kafka")
+}
+
+func c39PodAddrs(ctx context.Context, cluster *kafscalev1alpha1.KafscaleCluster) (pods c39Pods, stsReplicas *int32, problem string) {
 	scheme, err := c42Scheme()
 	if err != nil {
-		return nil, nil, "VF-INCONCLUSIVE: scheme: " + err.Error()
+		return c39Pods{}, nil, "VF-INCONCLUSIVE: scheme: " + err.Error()
 	}
 	c := fake.NewClientBuilder().WithScheme(scheme).WithObjects(cluster.DeepCopy()).Build()
 	r := &ClusterReconciler{Client: c, Scheme: scheme}
 	if err := r.reconcileBrokerDeployment(ctx, cluster, []string{"http://etcd:2379"}); err != nil {
-		return nil, nil, "VF-INCONCLUSIVE: reconcileBrokerDeployment: " + err.Error()
+		return c39Pods{}, nil, "VF-INCONCLUSIVE: reconcileBrokerDeployment: " + err.Error()
 	}
 	if err := r.reconcileBrokerHeadlessService(ctx, cluster); err != nil {
-		return nil, nil, "VF-INCONCLUSIVE: reconcileBrokerHeadlessService: " + err.Error()
+		return c39Pods{}, nil, "VF-INCONCLUSIVE: reconcileBrokerHeadlessService: " + err.Error()
 	}
 	var stsList appsv1.StatefulSetList
 	if err := c.List(ctx, &stsList, client.InNamespace(cluster.Namespace)); err != nil || len(stsList.Items) != 1 {
-		return nil, nil, fmt.Sprintf("VF-INCONCLUSIVE: expected exactly one broker StatefulSet, got %d (%v)", len(stsList.Items), err)
+		return c39Pods{}, nil, fmt.Sprintf("VF-INCONCLUSIVE: expected exactly one broker StatefulSet, got %d (%v)", len(stsList.Items), err)
 	}
 	sts := stsList.Items[0]
 	var svc corev1.Service
 	if err := c.Get(ctx, client.ObjectKey{Namespace: sts.Namespace, Name: sts.Spec.ServiceName}, &svc); err != nil {
-		return nil, nil, fmt.Sprintf("broker StatefulSet %s is governed by service %q which the operator does not render: %v", sts.Name, sts.Spec.ServiceName, err)
+		return c39Pods{}, nil, fmt.Sprintf("broker StatefulSet %s is governed by service %q which the operator does not render: %v", sts.Name, sts.Spec.ServiceName, err)
 	}
 	if svc.Spec.ClusterIP != corev1.ClusterIPNone {
-		return nil, nil, fmt.Sprintf("governing service %s is not headless (clusterIP %q): pods get no stable DNS names", svc.Name, svc.Spec.ClusterIP)
+		return c39Pods{}, nil, fmt.Sprintf("governing service %s is not headless (clusterIP %q): pods get no stable DNS names", svc.Name, svc.Spec.ClusterIP)
 	}
 	for k, v := range svc.Spec.Selector {
 		if sts.Spec.Template.Labels[k] != v {
-			return nil, nil, fmt.Sprintf("headless service selector %v does not select the broker pods (labels %v)", svc.Spec.Selector, sts.Spec.Template.Labels)
+			return c39Pods{}, nil, fmt.Sprintf("headless service selector %v does not select the broker pods (labels %v)", svc.Spec.Selector, sts.Spec.Template.Labels)
 		}
 	}
-	return func(i int32) string {
+	// the Kafka port of the pods: the container port named "kafka", which the headless Service's "kafka" port targets
+	var kafkaPort int32
+	for _, ct := range sts.Spec.Template.Spec.Containers {
+		for _, cp := range ct.Ports {
+			if cp.Name == "kafka" {
+				kafkaPort = cp.ContainerPort
+			}
+		}
+	}
+	svcTargetsKafka := false
+	for _, sp := range svc.Spec.Ports {
+		if sp.TargetPort.String() == "kafka" || (kafkaPort != 0 && sp.TargetPort.IntValue() == int(kafkaPort)) {
+			svcTargetsKafka = true
+		}
+	}
+	if kafkaPort == 0 || !svcTargetsKafka {
+		return c39Pods{}, nil, fmt.Sprintf("broker pods expose no container port named kafka (%d) targeted by the headless service %v", kafkaPort, svc.Spec.Ports)
+	}
+	return c39Pods{port: kafkaPort, addr: func(i int32) string {
 		return fmt.Sprintf("%s-%d.%s.%s.svc.cluster.local", sts.Name, i, sts.Spec.ServiceName, sts.Namespace)
-	}, sts.Spec.Replicas, ""
+	}}, sts.Spec.Replicas, ""
 }
 
 // c39CheckPublished asserts what C39 states on a published metadata document: one broker per
@@ -108,29 +132,45 @@ func c39PodAddrs(ctx context.Context, cluster *kafscalev1alpha1.KafscaleCluster)
 // ids of every listed topic are exactly 0..k-1. For the declared topics k == declared
 // (exactCount: freshly rendered) or k >= declared (republished over an existing snapshot:
 // partition counts never shrink). n >= 1 is required.
-func c39CheckPublished(meta metadata.ClusterMetadata, cluster *kafscalev1alpha1.KafscaleCluster, podAddr func(int32) string, declared []kafscalev1alpha1.KafscaleTopic, exactCount bool, info map[string]any) string {
+func c39CheckPublished(meta metadata.ClusterMetadata, cluster *kafscalev1alpha1.KafscaleCluster, pods c39Pods, declared []kafscalev1alpha1.KafscaleTopic, exactCount bool, info map[string]any) string {
+	podAddr := pods.addr
 	n := *cluster.Spec.Brokers.Replicas
 	if int32(len(meta.Brokers)) != n {
 		return fmt.Sprintf("spec has %d broker replicas but the metadata lists %d brokers", n, len(meta.Brokers))
 	}
 	byID := map[int32]string{}
+	portByID := map[int32]int32{}
 	for _, b := range meta.Brokers {
 		if _, dup := byID[b.NodeID]; dup {
 			return fmt.Sprintf("metadata lists broker id %d twice", b.NodeID)
 		}
 		byID[b.NodeID] = b.Host
+		portByID[b.NodeID] = b.Port
 	}
 	adv := strings.TrimSpace(cluster.Spec.Brokers.AdvertisedHost)
+	advPort := int32(0)
+	if p := cluster.Spec.Brokers.AdvertisedPort; p != nil && *p > 0 {
+		advPort = *p
+	}
 	for i := int32(0); i < n; i++ {
 		host, ok := byID[i]
 		if !ok {
 			return fmt.Sprintf("metadata has no broker for replica (pod ordinal) %d; ids: %v", i, byID)
 		}
 		if host == podAddr(i) {
+			// a pod's stable address is <pod dns>:<kafka container port>; only an explicit
+			// spec.brokers.advertisedPort may replace the port
+			if port := portByID[i]; port != pods.port && (advPort == 0 || port != advPort) {
+				return fmt.Sprintf("broker %d is published at %s:%d, but pod %d listens on port %d (advertisedPort %d, service type %q, kafkaNodePort %v)", i, host, port, i, pods.port, advPort,
+					cluster.Spec.Brokers.Service.Type, c42JSON(cluster.Spec.Brokers.Service.KafkaNodePort))
+			}
 			continue
 		}
 		if n == 1 && adv != "" && host == adv {
 			info["advertised"] = true
+			if port := portByID[i]; advPort != 0 && port != advPort {
+				return fmt.Sprintf("broker 0 is published at the advertised host %s with port %d although spec.brokers.advertisedPort is %d", host, port, advPort)
+			}
 			continue
 		}
 		return fmt.Sprintf("broker %d is published at %q, but pod %d's stable address is %q (advertised host %q, replicas %d)", i, host, i, podAddr(i), adv, n)
@@ -188,7 +228,7 @@ func c39CheckPublished(meta metadata.ClusterMetadata, cluster *kafscalev1alpha1.
 // skipLen: do not assert the upper length bound of the bucket (listed finding).
 func c39Check(ctx context.Context, cluster *kafscalev1alpha1.KafscaleCluster, topics []kafscalev1alpha1.KafscaleTopic, skipLen bool) (problem string, info map[string]any) {
 	info = map[string]any{}
-	podAddr, stsReplicas, problem := c39PodAddrs(ctx, cluster)
+	pods, stsReplicas, problem := c39PodAddrs(ctx, cluster)
 	if problem != "" {
 		return problem, info
 	}
@@ -208,7 +248,7 @@ func c39Check(ctx context.Context, cluster *kafscalev1alpha1.KafscaleCluster, to
 		if stsReplicas == nil || *stsReplicas != *specReplicas {
 			return fmt.Sprintf("spec asks for %d broker replicas but the StatefulSet is rendered with %v", *specReplicas, stsReplicas), info
 		}
-		if p := c39CheckPublished(meta, cluster, podAddr, mine, true, info); p != "" {
+		if p := c39CheckPublished(meta, cluster, pods, mine, true, info); p != "" {
 			return p, info
 		}
 	} else {
@@ -348,11 +388,11 @@ func TestVF_C39_Witness(t *testing.T) {
 	if err := json.Unmarshal(resp.Kvs[0].Value, &loaded); err != nil {
 		t.Fatalf("published snapshot does not decode: %v", err)
 	}
-	podAddr, _, p := c39PodAddrs(ctx, scaled)
+	pods, _, p := c39PodAddrs(ctx, scaled)
 	if p != "" {
 		t.Fatalf("%s", p)
 	}
-	problem = c39CheckPublished(loaded, scaled, podAddr, nil, false, map[string]any{})
+	problem = c39CheckPublished(loaded, scaled, pods, nil, false, map[string]any{})
 	still = strings.Contains(problem, "which is not one of the")
 	st.KnownResult(c39FindStaleLeader, still, "publish(replicas=2, topic orders x2) ; orders resource deleted ; publish(replicas=1): "+problem)
 	if problem != "" && !still {
